@@ -3,6 +3,8 @@ package props
 import (
 	"fmt"
 	"math/big"
+	"reflect"
+	"strings"
 	"time"
 
 	clptypes "github.com/Sifchain/sifnode/x/clp/types"
@@ -123,22 +125,22 @@ func (s Step) JSON() map[string]interface{} {
 
 // HistOpts configures the history generator.
 type HistOpts struct {
-	Histories int
-	Steps     int
-	Tokens    []string
-	Users     int
-	Weights   map[int]int // message tag -> weight
-	Locks     bool        // set liquidity-removal lock / cancel periods
-	Lppd      bool        // provider distribution periods
-	Rewards   bool        // reward periods
-	Fees      bool        // per-token swap fee overrides
-	Pmtp      bool        // non-zero ratio-shifting running rate
-	Perms     bool        // restricted registry permissions
-	Whitelist bool        // users[0] may decommission
-	MaxExp    int         // amount magnitude
-	BlockEach int         // a block boundary every n messages (0 = 3)
-	LockChanges bool      // the admin changes lock / cancel periods in the middle of histories
-	Epochs      bool      // rewards-bucket epochs: hour epoch, 25-minute blocks
+	Histories   int
+	Steps       int
+	Tokens      []string
+	Users       int
+	Weights     map[int]int // message tag -> weight
+	Locks       bool        // set liquidity-removal lock / cancel periods
+	Lppd        bool        // provider distribution periods
+	Rewards     bool        // reward periods
+	Fees        bool        // per-token swap fee overrides
+	Pmtp        bool        // non-zero ratio-shifting running rate
+	Perms       bool        // restricted registry permissions
+	Whitelist   bool        // users[0] may decommission
+	MaxExp      int         // amount magnitude
+	BlockEach   int         // a block boundary every n messages (0 = 3)
+	LockChanges bool        // the admin changes lock / cancel periods in the middle of histories
+	Epochs      bool        // rewards-bucket epochs: hour epoch, 25-minute blocks
 }
 
 type History struct {
@@ -253,6 +255,14 @@ func RunClpHistories(c Ctx, rep *report.Report, rng *chain.Rng, o HistOpts, next
 				rep.Count("admin.lock-change")
 			}
 			m, sm, signer := genClpMsg(rng, e, toks, o)
+			// bech32 also has an all-upper-case spelling of the same address; for the messages that do not look a provider
+			// record up by the signer string (create, add, swap, decommission, bucket) the spelling must not matter
+			if (m.Tag == 1 || m.Tag == 2 || m.Tag == 5 || m.Tag == 8 || m.Tag == 9) && rng.Intn(12) == 0 {
+				if f := reflect.ValueOf(sm).Elem().FieldByName("Signer"); f.IsValid() && f.Kind() == reflect.String {
+					f.SetString(strings.ToUpper(f.String()))
+					rep.Count("tx.signer-spelled-in-upper-case")
+				}
+			}
 			pre := e.Snapshot()
 			fee := chain.E(18)
 			res := e.Tx(signer, sm)
